@@ -155,6 +155,8 @@ impl State {
     }
 
     pub fn should_send(&self) -> bool {
+        #[cfg(metrics_verif)]
+        metrics::verif::point("tcp:should_send");
         self.should_send.load(Ordering::Acquire)
     }
 
@@ -189,6 +191,8 @@ impl State {
     }
 
     pub fn wake(&self) {
+        #[cfg(metrics_verif)]
+        metrics::verif::point("tcp:wake");
         let _ = self.waker.wake();
     }
 }
